@@ -182,7 +182,8 @@ def resource_dir():
 def cc(out_o, src, extra):
     ll = out_o[:-2] + '.be.ll'
     ll2 = out_o[:-2] + '.x86.ll'
-    cmd = ['clang', '--target=powerpc64-unknown-linux-gnu', '-O0', '-std=gnu99', '-w', '-ffreestanding', '-nostdinc',
+    # gcc on a big-endian host also predefines __FLOAT_WORD_ORDER__ (clang does not): code that consults it must see what gcc would say
+    cmd = ['clang', '--target=powerpc64-unknown-linux-gnu', '-O0', '-std=gnu99', '-w', '-ffreestanding', '-nostdinc', '-D__FLOAT_WORD_ORDER__=__ORDER_BIG_ENDIAN__',
            '-isystem', os.path.join(resource_dir(), 'include'), '-isystem', os.path.join(HERE, 'stubs'),
            '-fno-vectorize', '-fno-slp-vectorize', '-S', '-emit-llvm', src, '-o', ll] + list(extra)
     p = subprocess.run(cmd, capture_output=True, text=True)
